@@ -8,10 +8,15 @@
      assumes.
    NOT proved: the one-ulp bound for non-integer numerals and the rejection of every
    numeral above the largest finite double (Definitions below; tested against the
-   exact-rational oracle of DigitModelSpec.v by the correspondence run).  Repeated
-   dots and empty exponents are covered by computed examples and the run only. *)
+   exact-rational oracle of DigitModelSpec.v by the correspondence run).
+   Phase 3 additions: repeated dot / empty exponent rejected on every path (inside and
+   beyond the 19-digit window), the bare "0", the sign of a negative numeral on ALL
+   paths, and the rejection of the syntactic class  d ds (e|E)[+]es  with
+   (mantissa digits) + (written exponent) >= 310  (value >= 10^309).  Still only tested:
+   the band DBL_MAX .. 10^309, overflowing mantissas with a point or > 19 digits, and the
+   sign bit being CLEAR for non-negative numerals (needs a bound on the computed exponent). *)
 From Coq Require Import NArith ZArith List Bool.
-From Qv Require Import gen.Tables_digit DigitModel DigitModelSpec DigitProofsInt DigitProofsParse.
+From Qv Require Import gen.Tables_digit DigitModel DigitModelSpec DigitProofsInt DigitProofsParse DigitProofsReject DigitProofsSign DigitProofsOverflow.
 Import ListNotations.
 Local Open Scope N_scope.
 
@@ -113,3 +118,76 @@ Theorem c09_examples :
   /\ p_kind (match string_to_number [49;101] with Ok p => p | Err _ => mkPres 9 0 0 end) = qn_nan.
 Proof. repeat (match goal with |- _ /\ _ => split end); vm_compute; reflexivity. Qed.
 Print Assumptions c09_examples.
+
+(* ================= Phase 3 ================= *)
+(* sign_prefix sg: sg is "", "-" or "+".  bad_tail hd l (DigitProofsReject): syntactic, number-free
+   description of a text on which the scan after the mantissa fails: digits are skipped, then a
+   decimal point when one was seen already (hd = true), or e / E followed by no exponent digits. *)
+
+(* GENERAL: [sign] d r1 with d a non-zero digit and a failing tail is NotANumber, on every path *)
+Theorem c09_bad_tail_rejected : forall sg d r1,
+  sign_prefix sg -> is_nz_digit d = true -> bad_tail false r1 = true ->
+  exists p, string_to_number (sg ++ d :: r1) = Ok p /\ p_kind p = qn_nan.
+Proof. exact stn_bad_tail_rejected. Qed.
+Print Assumptions c09_bad_tail_rejected.
+
+(* repeated dot: [sign] d ds1 . ds2 . anything   (ds1, ds2 any digit strings, also empty; any length) *)
+Theorem c09_repeated_dot_rejected : forall sg d ds1 ds2 rest,
+  sign_prefix sg -> is_nz_digit d = true -> Forall dig ds1 -> Forall dig ds2 ->
+  exists p, string_to_number (sg ++ d :: ds1 ++ ch_dot :: ds2 ++ ch_dot :: rest) = Ok p /\ p_kind p = qn_nan.
+Proof. exact stn_repeated_dot_rejected. Qed.
+Print Assumptions c09_repeated_dot_rejected.
+
+(* empty exponent: [sign] d ds1 (e|E) tail  with bad_exp tail: tail is empty, or starts with no digit
+   and no sign, or is a sign followed by nothing / by no digit *)
+Theorem c09_empty_exponent_rejected : forall sg d ds1 c tail,
+  sign_prefix sg -> is_nz_digit d = true -> Forall dig ds1 -> exp_marker c -> bad_exp tail = true ->
+  exists p, string_to_number (sg ++ d :: ds1 ++ c :: tail) = Ok p /\ p_kind p = qn_nan.
+Proof. exact stn_empty_exponent_rejected. Qed.
+Print Assumptions c09_empty_exponent_rejected.
+
+Theorem c09_empty_exponent_frac_rejected : forall sg d ds1 ds2 c tail,
+  sign_prefix sg -> is_nz_digit d = true -> Forall dig ds1 -> Forall dig ds2 -> exp_marker c -> bad_exp tail = true ->
+  exists p, string_to_number (sg ++ d :: ds1 ++ ch_dot :: ds2 ++ c :: tail) = Ok p /\ p_kind p = qn_nan.
+Proof. exact stn_empty_exponent_frac_rejected. Qed.
+Print Assumptions c09_empty_exponent_frac_rejected.
+
+(* zero mantissas: 0e<empty exponent>;  0.<tail that fails>, e.g. 0.5.3, 0.0e, 0.e+ *)
+Theorem c09_zero_empty_exponent_rejected : forall sg c tail,
+  sign_prefix sg -> exp_marker c -> bad_exp tail = true ->
+  exists p, string_to_number (sg ++ ch_zero :: c :: tail) = Ok p /\ p_kind p = qn_nan.
+Proof. exact stn_zero_empty_exponent_rejected. Qed.
+Print Assumptions c09_zero_empty_exponent_rejected.
+
+Theorem c09_zero_dot_bad_tail_rejected : forall sg r2,
+  sign_prefix sg -> bad_tail true r2 = true ->
+  exists p, string_to_number (sg ++ ch_zero :: ch_dot :: r2) = Ok p /\ p_kind p = qn_nan.
+Proof. exact stn_zero_dot_bad_tail_rejected. Qed.
+Print Assumptions c09_zero_dot_bad_tail_rejected.
+
+(* the bare zero: "0" is the natural 0, "+0" too, "-0" is the real -0.0; consumed = 1 / 2 / 2 *)
+Theorem c09_zero_exact : forall rest,
+  delim rest -> match rest with c :: _ => c <> ch_x /\ c <> ch_ux | [] => True end ->
+  string_to_number (ch_zero :: rest) = Ok (mkPres qn_natural 0 1)
+  /\ string_to_number (ch_pos :: ch_zero :: rest) = Ok (mkPres qn_natural 0 2)
+  /\ string_to_number (ch_neg :: ch_zero :: rest) = Ok (mkPres qn_real sign_bit 2).
+Proof. exact stn_zero. Qed.
+Print Assumptions c09_zero_exact.
+
+(* sign on ALL paths: whatever follows '-', a Real result has bit 63 set (-.5, -0.x, -0e5, hex, ... included;
+   rejected forms are not Real, so the statement holds for them vacuously) *)
+Theorem c09_sign_preserved_all_paths : forall r p,
+  string_to_number (ch_neg :: r) = Ok p -> p_kind p = qn_real -> N.testbit (p_bits p) 63 = true.
+Proof. exact stn_negative_sign_all_paths. Qed.
+Print Assumptions c09_sign_preserved_all_paths.
+
+(* overflow: [sign] d ds (e|E) [+] es <no digit>  with at most 19 mantissa digits and
+   (1 + |ds|) + value(es) >= 310, i.e. value >= 10^309 > DBL_MAX: NotANumber.  es may be arbitrarily long. *)
+Theorem c09_overflow_rejected : forall sg d ds c plus es rest,
+  sign_prefix sg -> is_nz_digit d = true -> Forall dig ds -> (length ds <= 18)%nat -> exp_marker c ->
+  (plus = [] \/ plus = [ch_pos]) -> es <> [] -> Forall dig es -> nodigit rest ->
+  N.of_nat (length (sg ++ d :: ds ++ c :: plus ++ es ++ rest)) < 2 ^ 32 ->
+  310 <= 1 + N.of_nat (length ds) + dval es ->
+  exists p, string_to_number (sg ++ d :: ds ++ c :: plus ++ es ++ rest) = Ok p /\ p_kind p = qn_nan.
+Proof. exact stn_overflow_rejected. Qed.
+Print Assumptions c09_overflow_rejected.
